@@ -376,3 +376,14 @@ Definition stmt_cost (st : pstmt) : nat :=
     of a string segment nor an opening parenthesis. *)
 Definition expr_followb (k : str) : bool :=
   stopsb (fun c => seg_start c || (c =? 40)) (snd (span is_hsp k)).
+
+(** ** Abstract syntax up to source offsets (two spellings of one description
+    put the same things at different offsets). *)
+Fixpoint strip_expr (e : aexpr) : aexpr :=
+  match e with
+  | ARef n a _ => ARef n a 0
+  | AStep n ins => AStep n (map strip_expr ins)
+  end.
+Definition strip_stmt (s : astmt) : astmt :=
+  mkStmt (map (fun p => (fst p, 0)) (st_outs s)) (st_named s) (strip_expr (st_expr s)).
+Definition strip_offsets (l : list astmt) : list astmt := map strip_stmt l.
